@@ -4,6 +4,7 @@ import (
 	"bytes"
 	"encoding/base64"
 	"fmt"
+	"sort"
 	"strings"
 	"testing"
 	"time"
@@ -55,8 +56,11 @@ type Case struct {
 	Except   []string
 	SetErr   int  `json:",omitempty"` // the handler that sets the cookies then fails with this status (the error reply carries the cookies too)
 	SetPanic bool `json:",omitempty"` // the handler that sets the cookies then panics; a recover middleware in front of encryptcookie turns that into a 500 reply (which carries the cookies too)
+	Dup      bool `json:",omitempty"` // the handler sets the first cookie's name a second time, for another path, as a Set-Cookie header line
 	Mutate   bool // run the complete single-character substitution / truncation / extension set on every ciphertext
 }
+
+const dupValue = "second-value-for-another-path"
 
 func lossy(v []byte) bool {
 	s := string(v)
@@ -87,6 +91,10 @@ func check(c Case) vk.Verdict {
 	app.Get("/set", func(ctx fiber.Ctx) error {
 		for _, ck := range c.Cookies {
 			ctx.Cookie(ck.fiber())
+		}
+		if c.Dup {
+			// the same name once more for another path, as a header line (Cookie() keeps one cookie per name)
+			ctx.Response().Header.Add("Set-Cookie", c.Cookies[0].Name+"="+dupValue+"; Path=/other")
 		}
 		if c.SetPanic {
 			panic("handler failed after setting its cookies")
@@ -151,6 +159,43 @@ func check(c Case) vk.Verdict {
 	wire, msg := issue()
 	if msg != "" {
 		return vk.Failf("%s", msg)
+	}
+	if c.Dup {
+		// every Set-Cookie line of the name: ciphertext of one of the two values, each once (excepted: the values as they are)
+		name := c.Cookies[0].Name
+		r := vk.Do(app, "GET", "/set")
+		var plain []string
+		var fail string
+		r.Response.Header.VisitAllCookie(func(k, line []byte) {
+			if string(k) != name {
+				return
+			}
+			var fc fasthttp.Cookie
+			if err := fc.ParseBytes(line); err != nil {
+				fail = fmt.Sprintf("unparsable Set-Cookie line %q", line)
+				return
+			}
+			w := string(fc.Value())
+			if excepted(name, c.Except) {
+				plain = append(plain, w)
+				return
+			}
+			dec, err := encryptcookie.DecryptCookie(w, key)
+			if err != nil {
+				fail = fmt.Sprintf("Set-Cookie line %q of cookie %q (set twice, for two paths) does not carry a value encrypted under the key: %v", line, name, err)
+				return
+			}
+			plain = append(plain, dec)
+		})
+		if fail != "" {
+			return vk.Failf("%s", fail)
+		}
+		sort.Strings(plain)
+		want := []string{string(c.Cookies[0].Value), dupValue}
+		sort.Strings(want)
+		if !lossy(c.Cookies[0].Value) && strings.Join(plain, "\x00") != strings.Join(want, "\x00") {
+			return vk.Failf("cookie %q was set twice (values %q): the Set-Cookie lines carry %q", name, want, plain)
+		}
 	}
 	wire2, _ := issue()
 	v := vk.Verdict{}
@@ -351,6 +396,7 @@ func genCase(t *rapid.T) Case {
 	c.Except = rapid.SliceOfNDistinct(rapid.SampledFrom(names), 0, 2, rapid.ID[string]).Draw(t, "except")
 	c.SetErr = rapid.SampledFrom([]int{0, 0, 0, 403, 500}).Draw(t, "seterr")
 	c.SetPanic = rapid.IntRange(0, 5).Draw(t, "setpanic") == 0
+	c.Dup = rapid.IntRange(0, 3).Draw(t, "dup") == 0
 	c.Mutate = true
 	for _, ck := range c.Cookies {
 		if len(ck.Value) > 300 {
